@@ -427,6 +427,19 @@ def search(ctx):
     run({}, many, B.rkey(r), 65535, "binary")
     run({}, [({0xC3: b"\x02"}, bytes(r.randrange(256) for _ in range(70001)), 65537, False),
              ({}, b"tail", None, False)], B.rkey(r), 5, "binary")
+    # the SAME component object listed more than once (one firmware blob for several positions): every entry is
+    # serialised for the position it stands at
+    from bec2format.bf3file import Bf3File as _F, Bf3Component as _C
+    for _ in range(ctx.budget(6, 60)):
+        fw, main = _C({0xC3: b"\x01", 0xC4: b"\x00\xb6"}, B.gen_blob(r)), _C({0xC3: b"\x02"}, B.gen_blob(r))
+        enc = _C({0xC3: b"\x03", 0xC2: b"\x02"}, B.gen_blob(r), None, True)
+        order = r.choice([[main, fw, fw], [fw, main, fw], [fw, fw], [enc, fw, enc], [fw, fw, fw, main]])
+        fobj = _F({"k": "v"}, order)
+        key = B.rkey(r)
+        ctx.case(("same-object-twice", len(order), key))
+        why, _, _ = write_and_judge(fobj, None, key, r.choice(OFFSETS), r.choice(["binary", "text"]), ciph)
+        if why:
+            ctx.fail("bf3-layout", {"mode": "same-object-twice", "positions": [id(x) == id(order[-1]) for x in order]}, why)
     # several objects alive at once, built with DEFAULT arguments (no comments / no components given): editing one of
     # them must not show up in what another one writes
     from bec2format.bf3file import Bf3File, Bf3Component
@@ -489,6 +502,13 @@ def replay(ctx, data):
         d = f["data"]
         print(f["kind"], f["detail"][:400])
         try:
+            if d.get("mode") == "same-object-twice":
+                from bec2format.bf3file import Bf3File, Bf3Component
+                fw, main = Bf3Component({0xC3: b"\x01"}, b"fw-blob"), Bf3Component({0xC3: b"\x02"}, b"main")
+                why, _, _ = write_and_judge(Bf3File({}, [main, fw, fw]), None, bytes(range(16)), 5, "binary", L.real_aes())
+                print(" [main, fw, fw] with one fw object:", why or "layout ok")
+                rc |= bool(why)
+                continue
             if d.get("mode") == "default-objects":
                 from bec2format.bf3file import Bf3File, Bf3Component
                 fa, fb = Bf3File(), Bf3File()
